@@ -58,3 +58,10 @@ Definition tcp_recv (s : sock) : res bytes * sock :=
       | Ok (_, _, ln, _) => recv_exactly (S (N.to_nat ln)) (N.to_nat ln) [] s'
       end
   end.
+
+(* k successive calls of BlockingTcpTransport.recv on the same socket *)
+Fixpoint tcp_recv_n (k : nat) (s : sock) : list (res bytes) * sock :=
+  match k with
+  | O => ([], s)
+  | S k' => let '(r, s') := tcp_recv s in let '(rs, s'') := tcp_recv_n k' s' in (r :: rs, s'')
+  end.
